@@ -95,8 +95,8 @@ pub fn make_linked_list<'a>(vbar: bool, mut terms: Vec<Unifiable>) -> Unifiable 
         if i == last_index {
             if let SLinkedList{term: t, next: n, count: c, tail_var: tf} = node {
                 // If the last term is empty [], there is no need
-                // to add it to the tail.
-                if Nil == *t { tail = Nil; }
+                // to add it to the tail. The list ends here.
+                if Nil == *t { }
                 else {
                     tail = cons_node!(*t, *n, c, tf);
                     num = c + 1;
@@ -160,6 +160,27 @@ pub fn make_linked_list<'a>(vbar: bool, mut terms: Vec<Unifiable>) -> Unifiable 
 /// …
 /// </blockquote>
 ///
+/// Makes a Suiron list which holds exactly the given terms, in order.
+///
+/// Unlike [make_linked_list()](../s_linked_list/fn.make_linked_list.html),
+/// this function does not treat the last term specially: a last term which
+/// is a list (or an empty list) is an element of the new list, not its tail.
+/// It is used to build the results of append, include and exclude.
+///
+/// # Arguments
+/// * vector of unifiable terms
+/// # Return
+/// [SLinkedList](../unifiable/enum.Unifiable.html#variant.SLinkedList)
+pub fn make_list_of_terms(terms: Vec<Unifiable>) -> Unifiable {
+    let mut list = cons_node!(Nil, Nil, 0, false);
+    let mut num = 0;
+    for term in terms.into_iter().rev() {
+        num += 1;
+        list = cons_node!(term, list, num, false);
+    }
+    return list;
+} // make_list_of_terms()
+
 pub fn equal_escape(vec_chars: &Vec<char>, index: usize, ch: char) -> bool {
     if vec_chars[index] == ch {
         if index > 0 {
@@ -477,7 +498,7 @@ pub fn filter(filter: &Unifiable,
             } // match
         } // while
 
-        let new_list = make_linked_list(false, filtered_terms);
+        let new_list = make_list_of_terms(filtered_terms);
         return Some(new_list);
     }
     return None;
